@@ -9,6 +9,7 @@ import Cosi.Driver.Watch
 import Cosi.Driver.Helpers
 import Cosi.Driver.Pipeline
 import Cosi.Driver.Ctrl
+import Cosi.Driver.Conc
 import Cosi.Driver.KeyStorage
 import Cosi.Driver.Queue
 import Cosi.Driver.DepDB
@@ -49,7 +50,8 @@ def engines : List (String × Engine) := [
   ("faults", ⟨Driver.Restart.St, Driver.Restart.init, Driver.Restart.stepLine⟩),
   ("codec", ⟨Driver.Codec.St, Driver.Codec.init, Driver.Codec.stepLine⟩),
   ("rwatch", ⟨Driver.RWatch.St, Driver.RWatch.init, Driver.RWatch.stepLine⟩),
-  ("grpc", ⟨Driver.Remote.St, Driver.Remote.init, Driver.Remote.stepLine⟩)
+  ("grpc", ⟨Driver.Remote.St, Driver.Remote.init, Driver.Remote.stepLine⟩),
+  ("store-conc", ⟨Driver.Conc.St, Driver.Conc.init, Driver.Conc.stepLine⟩)
 ]
 
 partial def loop (e : Engine) (spec : Bool) (inp : IO.FS.Stream) (out : IO.FS.Stream) (st : e.σ) : IO Unit := do
